@@ -29,7 +29,7 @@ m = {
  "setup_cmd": "./setup.sh",
  "hooks": {
   "guard": "verif",
-  "enable": "go build -tags verif (check.sh builds sim/cmd/fgsim with replace github.com/intel/fastgo => /repo)",
+  "enable": "go build -tags verif (check.sh builds sim/cmd/fgsim with replace github.com/intel/fastgo => /repo; a second binary with -tags \"verif noasmtest\" runs fastgo's portable code paths as pseudo level 10)",
   "baseline_off_cmd": "cd /repo && GOFLAGS=-mod=mod GOPROXY=off GOSUMDB=off GOTOOLCHAIN=local go test -vet=off -count=1 -timeout 25m ./...",
   "source_commits": json.load(open('hook_commits.json')),
   "add_only": True,
@@ -37,7 +37,7 @@ m = {
  "engines": [{"name": "fgsim", "path": "sim/", "serves_properties": sorted(P), "kind_free_text": "single-process deterministic simulator for fastgo: PRNG-driven scenario generation, simulated sink/source/pipe seams, baton-passing task scheduler, explicit JSON traces with delta-debugging minimiser and fresh-process replay, per-level worker processes"}],
  "checks": [],
  "not_applicable": [{"property_id": "C20", "reason": "output size for one Close and no Flush is a pure function of (data, level, window, acceleration level): no schedule, fault, history or interleaving for a simulator to decide (DESIGN section 5, C20)"}],
- "notes": "Every check: ./check.sh <id> <tier> rebuilds sim/cmd/fgsim against /repo's working tree with -tags verif, runs workers at each runnable acceleration level, minimises and replays any violation in a fresh process before printing VIOLATION, prints KNOWN-FINDING lines for open entries of known_findings.json, writes evidence/<id>.json. Exit 2 = infrastructure trouble (never a verdict).",
+ "notes": "Every check: ./check.sh <id> <tier> rebuilds sim/cmd/fgsim against /repo's working tree with -tags verif, runs workers at each runnable acceleration level (0/1/3/4 forced through the verif hook, plus the portable build with -tags noasmtest as pseudo level 10), minimises and replays any violation in a fresh process before printing VIOLATION, prints KNOWN-FINDING lines for open entries of known_findings.json, writes evidence/<id>.json. Exit 2 = infrastructure trouble (never a verdict).",
 }
 for pid in sorted(P):
     cat, text, ref = P[pid]
